@@ -1,7 +1,7 @@
 """C01 — authentication gate (Tunnel.tla): model checking + replay of every TLC vector into the real tunnel."""
 from vlib import *
 
-ACTIONS = ("Receive", "AuthDecide", "Promote", "ConnectEnd", "MuxEnd", "PipeEnd")
+ACTIONS = ("Receive", "AuthDecide", "Promote", "ConnectEnd", "MuxProbe", "MuxEnd", "PipeEnd")
 
 
 def tunnel_jobs(ctx):
@@ -10,12 +10,16 @@ def tunnel_jobs(ctx):
     ctx.spec_must_hold(s1)
     s2 = ctx.tlc("MCTunnel", "MCTunnel.pairs.cfg", workers=4, timeout=900, require_actions=ACTIONS)
     ctx.spec_must_hold(s2)
-    r = ctx.harness("c01", ["--vectors", s1["out"], "--vectors", s2["out"]], env={"VERIF_ROOT": ROOT}, timeout=3000)
+    # one multiplexer request x every outcome of the forwarder's credentials probe (check_auth), which precedes
+    # the making of the multiplexer when the tunnel has credentials for the forwarder
+    s3 = ctx.tlc("MCTunnel", "MCTunnel.probe.cfg", workers=4, timeout=900, require_actions=tuple(a for a in ACTIONS if a != "ConnectEnd"), name="MCTunnel.probe")
+    ctx.spec_must_hold(s3)
+    r = ctx.harness("c01", ["--vectors", s1["out"], "--vectors", s2["out"], "--vectors", s3["out"]], env={"VERIF_ROOT": ROOT}, timeout=3000)
     nvec = r["counters"].get("vectors", 0)
     if nvec == 0:
         raise ToolError("no vectors exported by TLC")
     return {
-        "states": s1["distinct"] + s2["distinct"], "transitions": s1["states"] + s2["states"],
+        "states": s1["distinct"] + s2["distinct"] + s3["distinct"], "transitions": s1["states"] + s2["states"] + s3["states"],
         "traces_validated_against_impl": r["evaluations"],
         "vectors": nvec, "evaluations": r["evaluations"], "distinct_nontrivial": r["distinct_nontrivial"],
         "samples": r["samples"][:3], "exhaustive": True,
